@@ -21,7 +21,8 @@ ALIASES = ["SA0", "LC0", "SA1", "LC1", "P3_0", "M0", "M1", "USR", "UGP", "GP", "
            "UPCYCLEHI", "UPCYCLE", "FRAMELIMIT", "FRAMEKEY", "PKTCOUNTLO", "PKTCOUNTHI", "PKTCOUNT", "UTIMERLO",
            "UTIMERHI", "UTIMER", "SP", "FP", "LR"]
 EXPLICIT = ["R0", "R1", "R2", "R3", "R31", "R30", "R13", "R1:0", "R3:2", "R31:30", "P0", "P1", "P2", "P3", "C0", "C1",
-            "C3", "C1:0", "C3:2", "M0", "M1", "R11", "R22", "R10", "R23", "C11", "C13", "R11:10", "R23:22"]
+            "C3", "C1:0", "C3:2", "M0", "M1", "R11", "R22", "R10", "R23", "C11", "C13", "R11:10", "R23:22",
+            "R29", "R7", "R15", "R4", "R9:8", "R17:16", "C5", "C7:6", "C9"]
 
 
 def obs_for(o):
